@@ -993,10 +993,14 @@ where
                 // to when we get the S message
                 // Parse
                 'P' => {
+                    let mut denied = false;
+
                     if query_router.query_parser_enabled() {
                         match query_router.parse(&message) {
                             Ok(ast) => {
                                 if let Ok(output) = query_router.execute_plugins(&ast).await {
+                                    denied = matches!(output, PluginOutput::Deny(_));
+
                                     // A later statement of the batch must not undo an earlier denial.
                                     if !matches!(plugin_output, Some(PluginOutput::Deny(_))) {
                                         plugin_output = Some(output);
@@ -1014,7 +1018,14 @@ where
                         };
                     }
 
-                    self.buffer_parse(message, &pool)?;
+                    if denied {
+                        // Never register a denied statement: a later Bind by name would
+                        // prepare and run it on the server.
+                        self.extended_protocol_data_buffer
+                            .push_back(ExtendedProtocolData::create_new_parse(message, None));
+                    } else {
+                        self.buffer_parse(message, &pool)?;
+                    }
 
                     continue;
                 }
@@ -1314,9 +1325,13 @@ where
                     // Parse
                     // The query with placeholders is here, e.g. `SELECT * FROM users WHERE email = $1 AND active = $2`.
                     'P' => {
+                        let mut denied = false;
+
                         if query_router.query_parser_enabled() {
                             if let Ok(ast) = query_router.parse(&message) {
                                 if let Ok(output) = query_router.execute_plugins(&ast).await {
+                                    denied = matches!(output, PluginOutput::Deny(_));
+
                                     // A later statement of the batch must not undo an earlier denial.
                                     if !matches!(plugin_output, Some(PluginOutput::Deny(_))) {
                                         plugin_output = Some(output);
@@ -1325,7 +1340,14 @@ where
                             }
                         }
 
-                        self.buffer_parse(message, &pool)?;
+                        if denied {
+                            // Never register a denied statement: a later Bind by name would
+                            // prepare and run it on the server.
+                            self.extended_protocol_data_buffer
+                                .push_back(ExtendedProtocolData::create_new_parse(message, None));
+                        } else {
+                            self.buffer_parse(message, &pool)?;
+                        }
                     }
 
                     // Bind
